@@ -31,7 +31,8 @@ RULE = ("seeded distributions (1-5 keys over 1-3 topologies, positive weights in
         "dispatching entry point; draw schedules uniform / extreme floats (first/last key) / min,max,sticky "
         "vertex choice / mix; aborts mid-sampling then reuse; non-trivial = the sample needed at least one "
         "handshake patch or had N>=2; distinct = distinct execution digests.  Weighted-draw law: size-1 "
-        "configurations (no patching), key frequencies vs weights under the rigorous KL bound")
+        "configurations (no patching) AND N=1 configurations that need the patch but whose drawn key can be read back from the "
+        "output, key frequencies vs weights under the rigorous KL bound")
 ASSUMPTIONS = ["minimal-perturbation oracle is existential (some assignment of support keys below the entries explains "
                "the sample with fewer than size_i added stubs per topology), so it cannot over-constrain",
                "usability = accepted by the empirical loader and by the fast generator with clique motifs"]
@@ -299,7 +300,15 @@ def weight_scenarios(seed, tier):
         ntop = prng.randrange(1, 4)
         keys, w = gen_dist(prng, ntop, prng.randrange(2, 6))
         out.append((f"random-{i}", {"keys": keys, "weights": w, "sizes": [1] * ntop}))
-    return [(t, dict(s, N=DRAWS_PER_CALL, variant="clean", via="direct")) for t, s in out]
+    res = [(t, dict(s, N=DRAWS_PER_CALL, variant="clean", via="direct")) for t, s in out]
+    # ... and configurations that DO need the handshake patch, with N = 1 so that the drawn key can be read back from the
+    # output (key k becomes the smallest multiple of the motif size >= k): the draw law must not depend on whether a
+    # patch is needed
+    patched = [("patched-N1-size2", {"keys": [[0], [1], [3]], "weights": [1, 1, 2], "sizes": [2]}),
+               ("patched-N1-size3-two-topologies", {"keys": [[0, 1], [1, 4], [4, 0], [3, 3]], "weights": [0.2, 0.3, 0.1, 0.4], "sizes": [3, 3]}),
+               ("patched-N1-size5", {"keys": [[0], [1], [6], [11]], "weights": [3, 1, 1, 1], "sizes": [5]})]
+    res += [(t, dict(s, N=1, variant="clean", via=("dispatch" if i % 2 else "direct"), readback=True)) for i, (t, s) in enumerate(patched)]
+    return res
 
 
 def dist_runs(sc, base_seed, tag, start, stop):
@@ -325,6 +334,15 @@ def dist_runs(sc, base_seed, tag, start, stop):
 def judge_weights(sc, counts, n_draws):
     tot = float(sum(sc["weights"]))
     exp = {tuple(k): w / tot for k, w in zip(sc["keys"], sc["weights"])}
+    if sc.get("readback"):
+        # N = 1: image of key k under the minimal patch; images are distinct by construction of the scenarios
+        sizes = sc["sizes"]
+        img = {tuple(-(-x // s) * s for x, s in zip(k, sizes)): k for k in exp}
+        assert len(img) == len(exp)
+        back = Counter()
+        for out, c in counts.items():
+            back[img.get(out, ("unexplained", out))] += c
+        counts = back
     for key in counts:
         if key and key[0] == "raised":
             return [("C05.raised", f"sampling raised {key[1]}")]
@@ -347,16 +365,24 @@ def main(eng):
     wt = []
     ws = weight_scenarios(eng.seed, tier)
     for tag, sc in ws:
-        if tier == "thorough":
-            counts, calls = eng.distribution_timed(sc, tag, 0.3 * budget / len(ws), 2000, 2000, 200000, chunk=125)
+        if sc.get("readback"):
+            # one draw per call (N = 1): the number of calls is the number of draws
+            n_calls = 20000 if tier == "quick" else 400000
+            counts = eng.distribution(sc, n_calls, tag, chunk=1000)
+            n_draws = n_calls
+        elif tier == "thorough":
+            counts, n_calls = eng.distribution_timed(sc, tag, 0.3 * budget / len(ws), 2000, 2000, 200000, chunk=125)
+            n_draws = n_calls * DRAWS_PER_CALL
         else:
-            counts = eng.distribution(sc, calls, tag, chunk=max(25, calls // 32))
-        n_draws = calls * DRAWS_PER_CALL
+            n_calls = calls
+            counts = eng.distribution(sc, n_calls, tag, chunk=max(25, n_calls // 32))
+            n_draws = n_calls * DRAWS_PER_CALL
         viol = judge_weights(sc, counts, n_draws)
         wt.append({"scenario_tag": tag, "keys": sc["keys"], "weights": sc["weights"], "draws": n_draws,
                    "observed": {repr(k): v / n_draws for k, v in sorted(counts.items())}})
         for clause, detail in viol:
-            eng.report_custom(clause, f"[{tag}] {detail}", {"kind": "dist", "scenario": sc, "tag": tag, "n": calls}, tag)
+            eng.report_custom(clause, f"[{tag}] {detail}", {"kind": "dist", "scenario": sc, "tag": tag,
+                                                             "n": n_calls}, tag)
     eng.extra["weights_tests"] = wt
     eng.extra["alpha_per_test"] = stats.ALPHA
     return eng.finish()
@@ -366,10 +392,11 @@ def replay_custom(rec):
     from ..engine import Engine
     eng = Engine(ID, tier=rec.get("tier", "quick"), seed=rec["verif_seed"])
     try:
-        counts = eng.distribution(rec["scenario"], rec["n"], rec["tag"], chunk=max(25, rec["n"] // 32))
+        counts = eng.distribution(rec["scenario"], rec["n"], rec["tag"],
+                                  chunk=(1000 if rec["scenario"].get("readback") else max(25, rec["n"] // 32)))
     finally:
         eng.close()
-    viol = judge_weights(rec["scenario"], counts, rec["n"] * DRAWS_PER_CALL)
+    viol = judge_weights(rec["scenario"], counts, rec["n"] * (1 if rec["scenario"].get("readback") else DRAWS_PER_CALL))
     for clause, detail in viol:
         print(f"REPLAYED clause={clause} detail=[{rec['tag']}] {detail}")
     if viol:
